@@ -452,6 +452,12 @@ func (p *Packer) Unpack(r io.Reader, dst string) error {
 		}
 
 		if info.IsDirectory() {
+			// Create the directory itself; without this a directory that has
+			// no entries below it would never be materialised.
+			if err := os.MkdirAll(info.Path, 0755); err != nil {
+				return fmt.Errorf("failed to create directory %q: %w", info.Path, err)
+			}
+
 			// Restore directory info after all files are extracted because
 			// the extraction process changes directory's timestamps.
 			directoriesExtracted = append(directoriesExtracted, info)
